@@ -500,7 +500,13 @@ impl Worker {
                 } else {
                     "other"
                 };
-                let last = tail.lines().rev().find(|l| !l.trim().is_empty()).unwrap_or("").to_string();
+                let last = tail
+                    .lines()
+                    .rev()
+                    .find(|l| l.contains("memory allocation of") || l.contains("overflowed its stack") || l.contains("stack overflow") || l.contains("capacity overflow") || l.contains("panicked at"))
+                    .or_else(|| tail.lines().rev().find(|l| !l.trim().is_empty() && !l.starts_with("note:")))
+                    .unwrap_or("")
+                    .to_string();
                 self.respawn();
                 Err(format!("{how}:{hint}|{}", one_line(&last, 160)))
             }
@@ -1088,7 +1094,7 @@ fn deep_inputs(ns: &[usize]) -> Vec<(String, String)> {
         ("long-line-code", "+1 +1 +1 +1 +1 +1 +1 +1 +1 +1 +1 +1 +1 +1 +1 +1 +1 +1 +1 +1 +1 +1 +1 +1 +1 +1 +1 +1 +1 +1 +1 +1 +1 +1 +1 +1 +1 +1 +1 +1 +1 +1 +1 +1 +1 +1 +1 +1 +1 +1 +1 +1 +1 +1 +1 +1 +1 +1 +1 +1 +1 +1 +1 +1 +1 0"),
     ];
     for (n, s) in fixed {
-        v.push((n.to_string(), s.to_string()));
+        v.push((n.to_string(), format!("# Experimental!\n{s}")));
     }
     v
 }
@@ -1139,8 +1145,8 @@ fn known_inputs() -> Vec<(String, String)> {
         ("c19:line-saturation-assert", format!("{}a\n", "\n".repeat(65534))),
         ("c19:col-saturation", format!("{}1", " ".repeat(65534))),
         ("c19:line-saturation", format!("{}1", "\n".repeat(65535))),
-        ("c12:unbinary-alloc-abort", "°binary [1 1 255 255 255 255 255 255 255 31 0]".to_string()),
-        ("c12:unbinary-shape-overflow", "°binary [1 2 255 255 255 255 255 255 255 127 4 0 0 0 0 0 0 0]".to_string()),
+        ("c12:unbinary-alloc-abort", "# Experimental!\n°binary [1 1 255 255 255 255 255 255 255 31 0]".to_string()),
+        ("c12:unbinary-shape-overflow", "# Experimental!\n°binary [1 2 255 255 255 255 255 255 255 127 4 0 0 0 0 0 0 0]".to_string()),
         ("c05:fill-pervade-empty-axis", "⬚0+ ↯3_0 0 ↯2_4 1".to_string()),
         ("c05:fill-pervade-empty-axis2", "⬚0+ ↯2_4 1 ↯3_0 0".to_string()),
         ("c05:fill-neg-empty-div-zero", "⬚@x¯ ↯3_3_0_0 @a".to_string()),
@@ -1288,6 +1294,10 @@ fn search(n: usize, thorough: bool) {
                 mk("nest-soup", "", format!("{}{}", open.repeat(k2), g.soup(&mut r, 6)))
             }
         };
+        let mut inp = inp;
+        if inp.family != "bytes" && inp.family != "pgen" && r.chance(1, 2) {
+            inp.src = format!("# Experimental!\n{}", inp.src);
+        }
         inputs.push(inp);
     }
     let t0 = Instant::now();
@@ -1598,6 +1608,9 @@ fn main() {
         "search" => {
             let n: usize = std::env::args().nth(2).and_then(|s| s.parse().ok()).unwrap_or(200);
             let thorough = std::env::args().any(|a| a == "--thorough");
+            if let Some(h) = arg_str("--hang") {
+                unsafe { std::env::set_var("C09_POOL_HANG_S", h) };
+            }
             search(n, thorough);
         }
         "tie" => tie(),
